@@ -40,6 +40,22 @@ double strtod(const char *s, char **end) {
     if(!ok) { double big = 1e308; big = big * 10.0; errno = ERANGE; if(s[i] == '-') big = 0.0 - big; return big; }
     return v;
 }
+/* libc strtoull, base 10 only (the lazy loader's instance numbers): optional blanks and sign, digits, saturating at ULLONG_MAX with
+ * errno = ERANGE; no multiplication by a symbolic value (shift-and-add) */
+unsigned long long strtoull(const char *s, char **end, int base) {
+    int i = 0, any = 0, ovf = 0, neg = 0; unsigned long long acc = 0;
+    __CPROVER_assert(base == 10, "strtoull model: base 10 only");
+    while(s[i] == ' ' || (s[i] >= 9 && s[i] <= 13)) i++;
+    if(s[i] == '+' || s[i] == '-') { neg = s[i] == '-'; i++; }
+    while(s[i] >= '0' && s[i] <= '9') {
+        unsigned long long d = (unsigned long long)(s[i] - '0');
+        if(ovf || acc > 1844674407370955161ULL || (acc == 1844674407370955161ULL && d > 5)) ovf = 1; else acc = (acc << 3) + (acc << 1) + d;
+        i++; any = 1;
+    }
+    if(end) *end = (char *)(any ? s + i : s);
+    if(ovf) { errno = ERANGE; return 18446744073709551615ULL; }
+    return neg ? 0ULL - acc : acc;
+}
 #endif
 void _ZdlPv(void *p) { free(p); }
 void _ZdaPv(void *p) { free(p); }
